@@ -218,6 +218,65 @@ def histories(tier):
         return m2, dict(kw, max_shard_size_bytes=1 << 20), dict(info, sharded=True)
 
     hs.append(H("sharded_single_shard_resave_in_place", one_shard_conflict_inplace, natural_exc=FileExistsError))
+
+    # external tensors from two directories whose data files carry the same name; the save replaces one of them
+    for first in ("a", "b"):
+        def two_dirs(d, first=first):
+            for sub, fill in (("a", 0x41), ("b", 0x42)):
+                os.makedirs(os.path.join(d, sub))
+                with open(os.path.join(d, sub, "weights.data"), "wb") as f:
+                    f.write(bytes([fill]) * 64)
+            order = ("a", "b") if first == "a" else ("b", "a")
+            ts = [ir.ExternalTensor("weights.data", 8, 16, ir.DataType.UINT8, shape=ir.Shape([16]), name=f"e_{sub}", base_dir=os.path.join(d, sub)) for sub in order]
+            return _model(ts + [ir.Tensor(_arr(6, 1))]), dict(external_data="weights.data", size_threshold_bytes=0), {"save_dir": "a"}
+
+        hs.append(H(f"two_directories_same_file_name_{first}_first", two_dirs))
+
+    # the external data path has a directory component
+    def subdir_plain(d):
+        os.makedirs(os.path.join(d, "weights"))
+        with open(os.path.join(d, "weights", "model.data"), "wb") as f:
+            f.write(b"OLD-IN-SUBDIR" * 5)
+        with open(os.path.join(d, "weights", "neighbour.bin"), "wb") as f:
+            f.write(b"neighbour")
+        m, kw, info = fresh(d)
+        return m, dict(kw, external_data=os.path.join("weights", "model.data")), info
+
+    hs.append(H("destination_in_subdirectory", subdir_plain))
+
+    def subdir_sharded(d):
+        os.makedirs(os.path.join(d, "weights"))
+        with open(os.path.join(d, "weights", "neighbour.bin"), "wb") as f:
+            f.write(b"neighbour")
+        m = _model([ir.Tensor(_arr(5, 1)), ir.Tensor(_arr(3, 2)), ir.Tensor(_arr(5, 3)), ir.Tensor(_arr(3, 4))])
+        return m, dict(external_data=os.path.join("weights", "model.data"), size_threshold_bytes=0, max_shard_size_bytes=8), {"sharded": True}
+
+    hs.append(H("sharded_in_subdirectory", subdir_sharded))
+
+    def subdir_sharded_conflict(d):
+        m, kw, info = subdir_sharded(d)
+        with open(os.path.join(d, "weights", "model-00002-of-00002.data"), "wb") as f:
+            f.write(b"EXISTING SHARD IN SUBDIR")
+        return m, kw, info
+
+    hs.append(H("sharded_in_subdirectory_conflict_on_second_shard", subdir_sharded_conflict, natural_exc=FileExistsError))
+
+    def subdir_sharded_conflict_first(d):
+        m, kw, info = subdir_sharded(d)
+        with open(os.path.join(d, "weights", "model-00001-of-00002.data"), "wb") as f:
+            f.write(b"EXISTING FIRST SHARD IN SUBDIR")
+        return m, kw, info
+
+    hs.append(H("sharded_in_subdirectory_conflict_on_first_shard", subdir_sharded_conflict_first, natural_exc=FileExistsError))
+
+    # re-save of a model whose tensors live in another file of the same directory, onto a different existing file
+    def other_file_to_existing(d):
+        m2, kw, info = inplace(d)
+        with open(os.path.join(d, "new.data"), "wb") as f:
+            f.write(b"OLDNEW" * 9)
+        return m2, dict(kw, external_data="new.data"), info
+
+    hs.append(H("loaded_model_saved_to_other_existing_file", other_file_to_existing))
     return hs
 
 
@@ -259,7 +318,7 @@ def _do_save(h, d, plan):
                 saved = (ed.threading, ed.concurrent)
                 ed.threading, ed.concurrent = th, cf
                 try:
-                    out = sc.run(lambda _s: ir.save(model, os.path.join(d, "m.onnx"), **kw))
+                    out = sc.run(lambda _s: ir.save(model, os.path.join(d, info.get("save_dir", ""), "m.onnx"), **kw))
                 finally:
                     ed.threading, ed.concurrent = saved
                 if sc.abort_reason is not None:
@@ -267,7 +326,7 @@ def _do_save(h, d, plan):
                 if out[0] == "exc":
                     raise out[1]
             else:
-                ir.save(model, os.path.join(d, "m.onnx"), **kw)
+                ir.save(model, os.path.join(d, info.get("save_dir", ""), "m.onnx"), **kw)
     except common.HarnessError:
         raise
     except BaseException as e:  # noqa: BLE001
@@ -333,7 +392,7 @@ def check_after_crash(h, d, before, new_files, sharded):
         complete = new_files.get(k)
         if (not sharded) and now is not None and now[0] == "file" and complete is not None and now[2] == complete[2]:
             continue  # exactly the complete new bytes
-        if k == "m.onnx":
+        if os.path.basename(k) == "m.onnx":
             continue  # the model file itself is not a data file
         v.append(("existing_data_file_is_neither_old_nor_complete_new_after_crash", (k, None if now is None else len(now[-1]) if now[0] == "file" else now[0])))
     return v
